@@ -141,7 +141,25 @@ def run(ck, prog, ctx):
     if sentinel_repr and g0_ is not None:
         own_table = any(t_.callee.method in ("index", "get", "get_unchecked") and "HpoTermInternal" not in (t_.callee.def_args or "") and re.search(r"Vec<|\[", t_.callee.def_args or "") and not (t_.callee.res and t_.callee.res in prog.bodies) for _, t_ in g0_.calls())
         helper_ = [prog.bodies[t_.callee.res] for _, t_ in g0_.calls() if t_.callee.res in prog.bodies and (prog.bodies[t_.callee.res].impl_self or {}).get("adt") == ARENA and not prog.bodies[t_.callee.res].exported and prog.bodies[t_.callee.res].vis != "public" or (t_.callee.res in prog.bodies and (prog.bodies[t_.callee.res].impl_self or {}).get("adt") == ARENA and prog.bodies[t_.callee.res].name not in ("len", "values", "get", "get_mut", "insert", "keys", "iter", "values_mut", "get_unchecked", "get_unchecked_mut"))]
-        if not own_table and helper_:
+        flat_helper = [h_ for h_ in helper_ if any(t_.callee.method in ("index", "get", "get_unchecked") and "HpoTermInternal" not in (t_.callee.def_args or "") and re.search(r"Vec<|\[", t_.callee.def_args or "") and not (t_.callee.res and t_.callee.res in prog.bodies) for _, t_ in h_.calls())]
+        if not own_table and flat_helper:
+            # the flat table is read in ONE private helper that `get` / `get_mut` share (`index_of(id) -> Option<usize>`): the slot != 0 rule is judged
+            # there - every access to `terms` by the slot it read stands on the slot != 0 edge (a slot accepted because `terms[slot].id() == id`
+            # accepts the placeholder, whose own id is 0, for the absent id 0)
+            hb_ = flat_helper[0]
+            tests_h = zero_test_edges(hb_, pv, is_slot)
+            idx_h = [(bi_, t_) for bi_, t_ in hb_.calls() if t_.callee.method in ("index", "index_mut", "get_unchecked", "get") and "HpoTermInternal" in (t_.callee.def_args or "") and not (t_.callee.res and t_.callee.res in prog.bodies)]
+            for n_, (bi_, t_) in enumerate(idx_h):
+                ok_ = any(hb_.edge_dominates(e_, bi_) for tst in tests_h for e_ in tst["nonzero_edges"])
+                ck.ob("DOM", "%s/terms-access/%d" % (hb_.name, n_), ok_, "Arena::%s reads terms[slot] %s" % (hb_.name, "only on the slot != 0 edge" if ok_ else "without being dominated by a slot != 0 test: a vacant slot resolves to the placeholder at position 0, which then stands in for an absent id"), where=hb_.where(t_.line))
+            # what the helper returns as `Some(position)` must come from the slot != 0 edge as well
+            somes_ = [bi_ for bi_ in sorted(hb_.reach) for st_ in hb_.blocks[bi_].stmts if st_.k == "assign" and st_.place.is_local() and st_.place.local == 0 and st_.rv["k"] == "agg" and st_.rv.get("variant") == "Some"]
+            for n_, bi_ in enumerate(somes_):
+                ok_ = any(hb_.edge_dominates(e_, bi_) or e_[1] == bi_ for tst in tests_h for e_ in tst["nonzero_edges"])
+                ck.ob("DOM", "%s/some/%d" % (hb_.name, n_), ok_, "Arena::%s answers `Some(position)` %s" % (hb_.name, "only for a slot != 0" if ok_ else "without a slot != 0 test on the way: position 0 (the placeholder) can be handed out"), where=hb_.where())
+            sentinel_repr = False
+            consts["default/pushes"] = 1
+        elif not own_table and helper_:
             ck.undecided("DOM", "representation", "Arena::get finds the slot of an id through the private helper %s, not by indexing a flat id table: the slot != 0 / slot == 0 rules (phrased over `ids[id]`) do not apply" % helper_[0].short, where=g0_.where())
             sentinel_repr = False
             consts["default/pushes"] = 1  # (the message below is about the other representation)
